@@ -85,7 +85,7 @@ func genC17(g *Gen) {
 		}
 	}
 	// ---- Percentage ----
-	for p := -200; p <= 300; p++ {
+	for p := -200; p <= 1000; p++ {
 		g.addf("pctrt %d", p)
 		g.addf("pctenc %d", p)
 	}
